@@ -1,4 +1,5 @@
 import ArrProofs.Lemmas.C19Along
+import ArrProofs.Lemmas.C19Ext
 /-!
 # C19 — bit unpacking and packing are inverse; `binary_repr` parses back
 
@@ -14,6 +15,11 @@ of the lane round trip through *any* `apply_along_axis` that satisfies `AlongLif
   (`pack_unpack_axis`, `unpack_axis_at`, `pack_axis_at`), and
 * `alongRef` = a coordinate-level reference lane semantics (`pack_unpack_axis_ref`, `unpack_axis_ref`).
 The driver runs both and reports a split, so their agreement is part of the tie.
+
+Extension round (helpers and the specification-side definitions `emptyAnswer`, `orderAccepted`, `axisAccepted`,
+`countKeep` in `ArrProofs/Lemmas/C19Ext.lean`): complete outcome on arrays without elements / with a zero-length axis,
+totality (never a panic) on every well-formed array, `count` for every count flat and by axis, canonical form of
+`binary_repr` at every width.
 -/
 namespace ArrModel.C19
 open ArrModel
@@ -491,5 +497,279 @@ example : unpackBits alongRef ⟨[], [2, 0]⟩ (some (-1)) none none = .ok ⟨[]
 example : binaryRepr 10 = ['1', '0', '1', '0'] ∧ binaryRepr 0 = ['0'] := by decide
 example : binaryReprSigned 8 (-3) = ['1', '1', '1', '1', '1', '1', '0', '1'] := by decide
 example : (-(2 ^ (8 - 1) : Int) ≤ -128) ∧ ((-128 : Int) < 2 ^ (8 - 1)) := by decide
+
+/-! ## extension round — empty arrays and zero-length axes (complete outcome, never a panic) -/
+
+/-- **arrays without elements, complete outcome of both operations**, whatever `apply_along_axis` is, whatever the
+count, for every axis and order option (no side condition): the order option is judged first (`ParameterError`), the axis
+second (`AxisOutOfBounds`), and only then the answer is `Array::empty()` — the 1-D array of shape `[0]`, NOT the input
+shape (`emptyAnswer`, `Lemmas/C19Ext.lean`; `orderAccepted` / `axisAccepted` are characterised by `order_accepted_iff` /
+`axis_accepted_iff` below) -/
+theorem empty_outcome (along : Along) (a : Arr Nat) (he : a.isEmpty = true) (axis count : Option Int)
+    (ord : Option Spelling) :
+    unpackBits along a axis count ord = emptyAnswer a.ndim axis ord ∧
+    packBits along a axis ord = emptyAnswer a.ndim axis ord :=
+  ⟨unpackBits_of_isEmpty along a he axis count ord, packBits_of_isEmpty along a he axis ord⟩
+
+/-- … in particular for every well-formed array with a zero-length axis (any rank, any position of the zero) -/
+theorem zero_axis_outcome (along : Along) (a : Arr Nat) (hwf : a.WF) (h0 : 0 ∈ a.shape) (axis count : Option Int)
+    (ord : Option Spelling) :
+    unpackBits along a axis count ord = emptyAnswer a.ndim axis ord ∧
+    packBits along a axis ord = emptyAnswer a.ndim axis ord :=
+  empty_outcome along a (isEmpty_of_zero_mem a hwf h0) axis count ord
+
+/-- for well-formed arrays the shortcut `is_empty()` fires exactly on the arrays with a zero-length axis -/
+theorem empty_iff_zero_axis (a : Arr Nat) (hwf : a.WF) : a.isEmpty = true ↔ 0 ∈ a.shape := isEmpty_iff_zero_mem a hwf
+
+/-- the order option is accepted exactly when `to_bit_order` answers a value (absent, either enum value, or a text of the
+table, `toBitOrder_text_ok_iff`) -/
+theorem order_accepted_iff (ord : Option Spelling) : orderAccepted ord = true ↔ ∃ o, optOrder ord = .ok o :=
+  orderAccepted_iff ord
+
+/-- the axis option is accepted exactly when it is absent or `-rank ≤ axis < rank` (for every `isize` axis; ranks below
+`2^63`) -/
+theorem axis_accepted_iff (ndim : Nat) (ax : Int) (hnd : ndim < 2 ^ 63) (hax : -(2 ^ 63 : Int) ≤ ax) :
+    (axisAccepted ndim none = true) ∧
+    (axisAccepted ndim (some ax) = true ↔ (-(Int.ofNat ndim) ≤ ax ∧ ax < Int.ofNat ndim)) := by
+  refine ⟨rfl, ?_⟩
+  simp only [axisAccepted, decide_eq_true_eq]
+  exact normalizeAxis_lt_iff ndim ax hnd hax
+
+/-- **the round trip on an array without elements, complete outcome**: the unpacked value is the 1-D empty array, so
+`pack_bits` validates the SAME axis against rank 1 — an axis other than `0` / `-1` (accepted for the input of rank ≥ 2)
+is refused there -/
+theorem roundtrip_empty (along : Along) (a : Arr Nat) (he : a.isEmpty = true) (axis count : Option Int)
+    (ord : Option Spelling) :
+    (unpackBits along a axis count ord >>= fun u => packBits along u axis ord) =
+      if orderAccepted ord = false then .err .ParameterError
+      else if axisAccepted a.ndim axis = false ∨ axisAccepted 1 axis = false then .err .AxisOutOfBounds
+      else .ok ⟨[], [0]⟩ := by
+  rw [unpackBits_of_isEmpty along a he]
+  unfold emptyAnswer
+  cases ho : orderAccepted ord with
+  | false => simp
+  | true =>
+    cases h1 : axisAccepted a.ndim axis with
+    | false => simp
+    | true =>
+      simp only [Bool.true_eq_false, if_false, Res.bind_ok, false_or]
+      rw [packBits_of_isEmpty along ⟨[], [0]⟩ rfl]
+      simp [emptyAnswer, ho, Arr.ndim]
+
+/-- instance: on a well-formed array with a zero-length axis the round trip along an inner axis `ax ≥ 1` (in range for the
+array) is an `AxisOutOfBounds` error value — not the input, not a panic -/
+theorem roundtrip_zero_axis_inner (along : Along) (a : Arr Nat) (hwf : a.WF) (h0 : 0 ∈ a.shape) (ax : Int) (h1 : 1 ≤ ax)
+    (count : Option Int) (ord : Option Spelling) (o : BitOrder) (ho : optOrder ord = .ok o) :
+    (unpackBits along a (some ax) count ord >>= fun u => packBits along u (some ax) ord) = .err .AxisOutOfBounds := by
+  rw [roundtrip_empty along a (isEmpty_of_zero_mem a hwf h0)]
+  have hacc : orderAccepted ord = true := (orderAccepted_iff ord).2 ⟨o, ho⟩
+  have hn1 : ¬ normalizeAxis 1 ax < 1 := by
+    unfold normalizeAxis; rw [if_neg (by omega)]; omega
+  have h2 : axisAccepted 1 (some ax) = false := by simp [axisAccepted, hn1]
+  simp [hacc, h2]
+
+/-- **never a panic, total**: on the model of the crate's own `apply_along_axis` pipeline, for EVERY well-formed byte
+array (zero-length axes included), every axis, count and order option, `unpack_bits` answers `Ok` with a well-formed
+array or `Err` -/
+theorem unpack_total (a : Arr Nat) (hwf : a.WF) (axis count : Option Int) (ord : Option Spelling) :
+    (∃ u, unpackBits alongPipe a axis count ord = .ok u ∧ u.WF) ∨ (∃ e, unpackBits alongPipe a axis count ord = .err e) :=
+  unpackBits_pipe_total a hwf axis count ord
+
+/-- the same for `pack_bits` (any element values) -/
+theorem pack_total (a : Arr Nat) (hwf : a.WF) (axis : Option Int) (ord : Option Spelling) :
+    (∃ u, packBits alongPipe a axis ord = .ok u ∧ u.WF) ∨ (∃ e, packBits alongPipe a axis ord = .err e) :=
+  packBits_pipe_total a hwf axis ord
+
+theorem unpack_never_panics (a : Arr Nat) (hwf : a.WF) (axis count : Option Int) (ord : Option Spelling) :
+    unpackBits alongPipe a axis count ord ≠ .panic := by
+  rcases unpack_total a hwf axis count ord with ⟨u, h, _⟩ | ⟨e, h⟩ <;> rw [h] <;> exact fun h => nomatch h
+
+theorem pack_never_panics (a : Arr Nat) (hwf : a.WF) (axis : Option Int) (ord : Option Spelling) :
+    packBits alongPipe a axis ord ≠ .panic := by
+  rcases pack_total a hwf axis ord with ⟨u, h, _⟩ | ⟨e, h⟩ <;> rw [h] <;> exact fun h => nomatch h
+
+/-- … and for the chained round trip (even with different axis / order options in the two calls) -/
+theorem roundtrip_never_panics (a : Arr Nat) (hwf : a.WF) (axis axis' count : Option Int) (ord ord' : Option Spelling) :
+    (unpackBits alongPipe a axis count ord >>= fun u => packBits alongPipe u axis' ord') ≠ .panic := by
+  rcases unpack_total a hwf axis count ord with ⟨u, h, huwf⟩ | ⟨e, h⟩
+  · rw [h]; exact pack_never_panics u huwf axis' ord'
+  · rw [h]; exact fun h => nomatch h
+
+/-- **the shortcut decides**: on a well-formed array with a zero-length axis the lane pipeline itself (the crate's
+`apply_along_axis` with the very lane closures of the two operations) would answer `ParameterError` when an axis other
+than the processed one has length 0 and the INPUT array otherwise (`C08Empty`: `applyAlongAxis_other_zero`,
+`applyAlongAxis_axis_zero`) — never the `[0]`-shaped `Array::empty()` that `zero_axis_outcome` states; so dropping or
+moving the shortcut changes the answer on every such array -/
+theorem lanes_on_zero_axis (a : Arr Nat) (hwf : a.WF) (k : Nat) (hk : k < a.ndim) (h0 : 0 ∈ a.shape) (o : BitOrder)
+    (count : Option Int) :
+    alongPipe a k (unpackLane o count) = (if 0 ∈ a.shape.eraseIdx k then .err .ParameterError else .ok a) ∧
+    alongPipe a k (packLane o) = (if 0 ∈ a.shape.eraseIdx k then .err .ParameterError else .ok a) :=
+  ⟨alongPipe_zero_axis a hwf k hk h0 _ (unpackLane_nil o count), alongPipe_zero_axis a hwf k hk h0 _ (packLane_nil o)⟩
+
+/-! ## extension round — `count`, for every count, flat and by axis -/
+
+/-- what `countKeep` (`Lemmas/C19Ext.lean`) is: absent keeps all `total` bits; `c ≥ 0` keeps the first `c` and is refused
+beyond `total`; `-c < 0` keeps all but the last `c` and is refused when `c > total` -/
+theorem count_keep_spec (total : Nat) :
+    countKeep total none = some total ∧
+    (∀ c : Nat, countKeep total (some (Int.ofNat c)) = if c ≤ total then some c else none) ∧
+    (∀ c : Nat, 0 < c → countKeep total (some (-(Int.ofNat c))) = if c ≤ total then some (total - c) else none) := by
+  refine ⟨rfl, fun c => ?_, fun c hc => ?_⟩
+  · simp [countKeep]
+  · have hneg : ¬ (0 ≤ -(Int.ofNat c)) := by simp; omega
+    have habs : (-(Int.ofNat c)).natAbs = c := by simp
+    simp only [countKeep, if_neg hneg, habs]
+
+/-- **`count` in the flat form, every count** (through the whole operation: accepted order, non-empty array): the result
+is the 1-D array of the first `m` bits of the full unpacking, `m = countKeep (8·len) count`, or the `OutOfBounds` error
+value when the count is refused — `count = 0` and `count = -8·len` give the empty 1-D array, `count = 8·len` the same as
+no count -/
+theorem unpack_count_flat (along : Along) (a : Arr Nat) (count : Option Int) (ord : Option Spelling) (o : BitOrder)
+    (ho : optOrder ord = .ok o) (hne : a.isEmpty = false) :
+    unpackBits along a none count ord =
+      match countKeep (8 * a.elems.length) count with
+      | some m => .ok (Arr.flat ((unpackFlat o a.elems).take m))
+      | none => .err .OutOfBounds := by
+  rw [unpackBits_flat along a count ord o ho hne]
+  exact unpackFlatArr_count o count a
+
+/-- **`count` along an axis, every accepted count** (pipeline model): the count applies to every lane separately —
+`m = countKeep (8·n) count` with `n` the length of the axis — the axis takes length `m`, the other axes are kept, and the
+element at `c` is bit `c[axis]` of the flat unpacking of the lane through `c`: the result is the prefix of length `m`
+along the axis of the unpacking without count (`unpack_axis_at`) -/
+theorem unpack_count_axis_ok (a : Arr Nat) (ax : Int) (count : Option Int) (ord : Option Spelling) (o : BitOrder) (m : Nat)
+    (ho : optOrder ord = .ok o) (hwf : a.WF) (hnz : 0 ∉ a.shape) (hk : normalizeAxis a.ndim ax < a.ndim)
+    (hm : countKeep (8 * a.shape.getD (normalizeAxis a.ndim ax) 0) count = some m) :
+    ∃ u, unpackBits alongPipe a (some ax) count ord = .ok u ∧
+      u.shape = a.shape.set (normalizeAxis a.ndim ax) m ∧ u.WF ∧
+      ∀ c, inRange u.shape c = true →
+        u.get? c = (unpackFlat o (laneOf a (normalizeAxis a.ndim ax) c))[c.getD (normalizeAxis a.ndim ax) 0]? := by
+  have hne := not_empty_of_no_zero_axis a hwf hnz
+  have hn := axis_len_pos a _ hwf hk hne
+  have hk' : normalizeAxis a.ndim ax < a.shape.length := hk
+  have hle := countKeep_le _ _ _ hm
+  have hne' : ∀ (l : List Nat), l.length = a.shape.getD (normalizeAxis a.ndim ax) 0 → l ≠ [] :=
+    fun l hl e => by have h0 : l.length = 0 := (by simp [e]); omega
+  have hlane : ∀ l : List Nat, l.length = a.shape.getD (normalizeAxis a.ndim ax) 0 →
+      unpackLane o count (Arr.flat l) = .ok (Arr.flat ((unpackFlat o l).take m)) := by
+    intro l hl
+    rw [unpackLane_count_flat o count l (hne' l hl), hl, hm]
+  obtain ⟨u, hu, hs, huwf, hget⟩ := applyAlongAxis_spec a 0 0 (normalizeAxis a.ndim ax) m (unpackLane o count) hwf hk hnz
+    (fun l hl => ⟨_, hlane l hl, by simp only [Arr.flat, List.length_take, unpackFlat_length, hl]; omega⟩)
+  refine ⟨u, by rw [unpackBits_axis alongPipe a ax count ord o ho hk hne]; exact hu, hs, huwf, ?_⟩
+  intro c hc
+  obtain ⟨y, hy1, hy2⟩ := hget c hc
+  have hL : (laneOf a (normalizeAxis a.ndim ax) c).length = a.shape.getD (normalizeAxis a.ndim ax) 0 :=
+    laneOf_length a _ _ c hwf (by rw [← hs]; exact hc)
+  rw [hlane _ hL] at hy1
+  cases hy1
+  have hck : c.getD (normalizeAxis a.ndim ax) 0 < m := by
+    have := inRange_getD_lt u.shape c (normalizeAxis a.ndim ax) hc (by rw [hs, List.length_set]; exact hk')
+    rwa [hs, getD_set_self _ _ _ hk'] at this
+  rw [hy2]
+  simp only [Arr.flat, List.getElem?_take, hck, if_true]
+
+/-- **`count` along an axis, every refused count**: more than the `8·n` bits of a lane (either sign) is the `OutOfBounds`
+error value — for every rank, axis, order -/
+theorem unpack_count_axis_err (a : Arr Nat) (ax : Int) (count : Option Int) (ord : Option Spelling) (o : BitOrder)
+    (ho : optOrder ord = .ok o) (hwf : a.WF) (hnz : 0 ∉ a.shape) (hk : normalizeAxis a.ndim ax < a.ndim)
+    (hm : countKeep (8 * a.shape.getD (normalizeAxis a.ndim ax) 0) count = none) :
+    unpackBits alongPipe a (some ax) count ord = .err .OutOfBounds := by
+  have hne := not_empty_of_no_zero_axis a hwf hnz
+  have hn := axis_len_pos a _ hwf hk hne
+  rw [unpackBits_axis alongPipe a ax count ord o ho hk hne]
+  apply applyAlongAxis_all_err a 0 0 _ _ _ hwf hk hnz
+  intro l hl
+  have hl0 : l ≠ [] := fun e => by have h0 : l.length = 0 := (by simp [e]); omega
+  rw [unpackLane_count_flat o count l hl0, hl, hm]
+
+/-! ## extension round — `binary_repr`: canonical form, every width -/
+
+/-- **the text is canonical**: for a positive value it starts with `1` (no leading zeros, no sign, no prefix) and has
+exactly as many characters as the value needs, `2^(len-1) ≤ n < 2^len`; zero is `"0"` -/
+theorem binaryRepr_canonical (n : Nat) (hn : 0 < n) :
+    (binaryRepr n).head? = some '1' ∧
+    2 ^ ((binaryRepr n).length - 1) ≤ n ∧ n < 2 ^ (binaryRepr n).length := by
+  refine ⟨?_, ?_⟩
+  · have := reprLoop_getLast (n + 1) n hn (by omega)
+    simp only [binaryRepr, binaryDigits, List.head?_map, List.head?_reverse, this]
+    rfl
+  · rw [binaryRepr_length]; exact reprLoop_length_bounds (n + 1) n hn (by omega)
+
+/-- different values have different texts -/
+theorem binaryRepr_injective (m n : Nat) (h : binaryRepr m = binaryRepr n) : m = n := by
+  have := binaryRepr_parse m
+  rw [h, binaryRepr_parse n] at this
+  exact (Option.some.inj this).symm
+
+/-- a non-negative value of a `w`-bit signed type prints like the unsigned value (no padding to the width) -/
+theorem binaryReprSigned_nonneg (w : Nat) (v : Int) (hw : 0 < w) (h0 : 0 ≤ v) (hhi : v < (2 ^ (w - 1) : Int)) :
+    binaryReprSigned w v = binaryRepr v.toNat := by
+  obtain ⟨u, hu, _, h1, _⟩ := signed_pattern w v hw (by have : (0 : Int) ≤ 2 ^ (w - 1) := Int.pow_nonneg (by decide); omega) hhi
+  unfold binaryReprSigned
+  rw [hu]
+  congr 1
+  have := (h1 h0).1
+  omega
+
+/-- **a negative value of a `w`-bit signed type, every width**: the text has exactly `w` characters, starts with `1`, and
+its value read as a plain binary number is `v + 2^w ≥ 2^(w-1)` — a minus sign never appears, and the text does not fit
+the non-negative range of the same signed type -/
+theorem binaryReprSigned_neg (w : Nat) (v : Int) (hw : 0 < w) (hlo : -(2 ^ (w - 1) : Int) ≤ v) (hneg : v < 0) :
+    (binaryReprSigned w v).length = w ∧ (binaryReprSigned w v).head? = some '1' ∧
+    ∃ u : Nat, parseRadix2 (binaryReprSigned w v) = some u ∧ (u : Int) = v + (2 ^ w : Int) ∧ 2 ^ (w - 1) ≤ u := by
+  obtain ⟨u, hu, hlt, _, h2⟩ := signed_pattern w v hw hlo
+    (by have : (0 : Int) ≤ 2 ^ (w - 1) := Int.pow_nonneg (by decide); omega)
+  obtain ⟨hui, hge⟩ := h2 hneg
+  have hpos : 0 < u := Nat.lt_of_lt_of_le (Nat.two_pow_pos _) hge
+  obtain ⟨hc1, hc2, hc3⟩ := binaryRepr_canonical u hpos
+  unfold binaryReprSigned
+  rw [hu]
+  exact ⟨pow_window_unique u _ w hc2 hc3 hge hlt, hc1, u, binaryRepr_parse u, hui, hge⟩
+
+/-- **every width at once** (`w ≥ 1`; a 0-bit type does not exist): every value of the `w`-bit unsigned type and every
+value of the `w`-bit signed type parses back from its `binary_repr`, and within either type different values have
+different texts -/
+theorem binaryRepr_every_width (w : Nat) (hw : 0 < w) :
+    (∀ n : Nat, n < 2 ^ w → parseRadix2U w (binaryRepr n) = some n) ∧
+    (∀ v : Int, -(2 ^ (w - 1) : Int) ≤ v → v < (2 ^ (w - 1) : Int) →
+      (parseRadix2U w (binaryReprSigned w v)).map (toSigned w) = some v) ∧
+    (∀ v v' : Int, -(2 ^ (w - 1) : Int) ≤ v → v < (2 ^ (w - 1) : Int) → -(2 ^ (w - 1) : Int) ≤ v' →
+      v' < (2 ^ (w - 1) : Int) → binaryReprSigned w v = binaryReprSigned w v' → v = v') := by
+  refine ⟨fun n h => binaryRepr_parse_unsigned w n h, fun v h1 h2 => binaryReprSigned_parse w v hw h1 h2, ?_⟩
+  intro v v' h1 h2 h3 h4 he
+  have a := binaryReprSigned_parse w v hw h1 h2
+  rw [he, binaryReprSigned_parse w v' hw h3 h4] at a
+  exact (Option.some.inj a).symm
+
+/-- **the converse — `binary_repr` is the inverse of parsing on canonical texts**: every non-empty text of binary digits
+without a leading zero (or the text `"0"`), given by its digit list, parses to a value whose `binary_repr` is that very
+text; with `binaryRepr_parse` the two functions are mutually inverse between the natural numbers and the canonical texts.
+(A text with a leading zero parses too, but is not what `binary_repr` prints — example below.) -/
+theorem binaryRepr_of_parse (ds : List Nat) (hne : ds ≠ []) (hd : ∀ d ∈ ds, d < 2) (hc : ds = [0] ∨ ds.head? = some 1) :
+    ∃ n, parseRadix2 (ds.map digitChar) = some n ∧ binaryRepr n = ds.map digitChar :=
+  ⟨ofDigitsBE ds, parseRadix2_digits ds hne hd, by rw [binaryRepr, binaryDigits_ofDigitsBE ds hne hd hc]⟩
+
+/-! ## non-vacuity of the extension round -/
+
+example : emptyAnswer 2 (some 1) none = .ok ⟨[], [0]⟩ ∧ emptyAnswer 2 (some 2) none = .err .AxisOutOfBounds ∧
+    emptyAnswer 2 (some 2) (some (.text ['B'])) = .err .ParameterError ∧
+    emptyAnswer 2 (some (-2)) (some (.text ['l', 'i', 't', 't', 'l', 'e'])) = .ok ⟨[], [0]⟩ := by decide
+example : unpackBits alongPipe ⟨[], [2, 0]⟩ (some 1) (some 3) none = .ok ⟨[], [0]⟩ := by decide
+example : (unpackBits alongPipe ⟨[], [2, 0]⟩ (some 1) none none >>= fun u => packBits alongPipe u (some 1) none)
+    = .err .AxisOutOfBounds := by decide
+example : (unpackBits alongPipe ⟨[], [2, 0]⟩ (some (-1)) none none >>= fun u => packBits alongPipe u (some (-1)) none)
+    = .ok ⟨[], [0]⟩ := by decide
+example : (0 : Nat) ∈ ([2, 0] : List Nat).eraseIdx 0 ∧ (0 : Nat) ∉ ([2, 0] : List Nat).eraseIdx 1 := by decide
+example : countKeep 16 (some 5) = some 5 ∧ countKeep 16 (some (-5)) = some 11 ∧ countKeep 16 (some 17) = none ∧
+    countKeep 16 (some (-17)) = none ∧ countKeep 16 (some 0) = some 0 ∧ countKeep 16 (some (-16)) = some 0 ∧
+    countKeep 16 none = some 16 := by decide
+example : unpackBits alongRef ⟨[2, 3, 5, 7], [2, 2]⟩ none (some (-27)) none = .ok (Arr.flat [0, 0, 0, 0, 0]) := by decide
+example : unpackBits alongRef ⟨[2, 3, 5, 7], [2, 2]⟩ none (some 33) none = .err .OutOfBounds := by decide
+example : binaryReprSigned 8 (-128) = ['1', '0', '0', '0', '0', '0', '0', '0'] ∧ binaryReprSigned 8 127 = binaryRepr 127 ∧
+    (binaryRepr 127).length = 7 ∧ binaryReprSigned 3 (-1) = ['1', '1', '1'] := by decide
+
+example : parseRadix2 ['0', '1'] = some 1 ∧ binaryRepr 1 = ['1'] ∧
+    parseRadix2 ([1, 0, 1, 0].map digitChar) = some 10 ∧ binaryRepr 10 = [1, 0, 1, 0].map digitChar := by decide
 
 end ArrModel.C19
